@@ -106,7 +106,7 @@ func scanSites(ld *sym.Loaded) []site {
 var nondetAllow = map[string]string{
 	"map-range|github.com/reedom/convergen/pkg/util.NewImportNames|github.com/reedom/convergen/pkg/util.ImportNames":           "order-independence decided by C13ImportTable",
 	"map-range|(github.com/reedom/convergen/pkg/util.ImportNames).LookupPath|github.com/reedom/convergen/pkg/util.ImportNames": "order-independence decided by C13ImportTable",
-	"random-id|(*github.com/reedom/convergen/pkg/parser.Parser).findConvergenEntries|github.com/matoous/go-nanoid.Nanoid":     "marker independence decided by C11MarkerSubstitution (content-independent-of-markers)",
+	"random-id|(*github.com/reedom/convergen/pkg/parser.Parser).findConvergenEntries|github.com/matoous/go-nanoid.Nanoid":      "marker independence decided by C11MarkerSubstitution (content-independent-of-markers)",
 	"nondet-call|github.com/matoous/go-nanoid.Format|crypto/rand.Read":                                                         "source of the random marker (see random-id)",
 	"nondet-call|github.com/matoous/go-nanoid.Generate|crypto/rand.Read":                                                       "source of the random marker (see random-id)",
 	"nondet-call|github.com/matoous/go-nanoid.Nanoid|crypto/rand.Read":                                                         "source of the random marker (see random-id)",
@@ -114,17 +114,17 @@ var nondetAllow = map[string]string{
 }
 
 var osAllow = map[string]string{
-	"os-call|github.com/reedom/convergen/pkg/config.(*Config).ParseArgs|os.Getenv":  "input (GOFILE), C18ParseArgs",
-	"os-call|(*github.com/reedom/convergen/pkg/config.Config).ParseArgs|os.Getenv":  "input (GOFILE), C18ParseArgs",
-	"os-call|(*github.com/reedom/convergen/pkg/config.Config).ParseArgs|os.Exit":    "usage exit, C18NoInput",
-	"os-call|github.com/reedom/convergen/pkg/parser.NewParser|os.Stat":              "read-only",
-	"os-call|github.com/reedom/convergen/pkg/parser.NewParser$1|os.Stat":            "read-only",
-	"os-call|github.com/reedom/convergen/pkg/parser.NewParser$1|os.SameFile":        "pure",
-	"os-call|github.com/reedom/convergen/pkg/runner.Run|os.OpenFile":                "log file, C15Run",
+	"os-call|github.com/reedom/convergen/pkg/config.(*Config).ParseArgs|os.Getenv":         "input (GOFILE), C18ParseArgs",
+	"os-call|(*github.com/reedom/convergen/pkg/config.Config).ParseArgs|os.Getenv":         "input (GOFILE), C18ParseArgs",
+	"os-call|(*github.com/reedom/convergen/pkg/config.Config).ParseArgs|os.Exit":           "usage exit, C18NoInput",
+	"os-call|github.com/reedom/convergen/pkg/parser.NewParser|os.Stat":                     "read-only",
+	"os-call|github.com/reedom/convergen/pkg/parser.NewParser$1|os.Stat":                   "read-only",
+	"os-call|github.com/reedom/convergen/pkg/parser.NewParser$1|os.SameFile":               "pure",
+	"os-call|github.com/reedom/convergen/pkg/runner.Run|os.OpenFile":                       "log file, C15Run",
 	"os-call|(*github.com/reedom/convergen/pkg/generator.Generator).Generate|os.WriteFile": "the output write, C15Run/C18Generate",
-	"os-call|github.com/reedom/convergen.main|os.Exit":                              "exit status",
-	"os-call|github.com/reedom/convergen/pkg/parser.blankOverlay|path/filepath.Abs": "pure path computation for the loader overlay key (reads the working directory, writes nothing)",
-	"os-call|github.com/reedom/convergen/pkg/parser.blankOverlay|path/filepath.Dir": "pure path computation",
+	"os-call|github.com/reedom/convergen.main|os.Exit":                                     "exit status",
+	"os-call|github.com/reedom/convergen/pkg/parser.blankOverlay|path/filepath.Abs":        "pure path computation for the loader overlay key (reads the working directory, writes nothing)",
+	"os-call|github.com/reedom/convergen/pkg/parser.blankOverlay|path/filepath.Dir":        "pure path computation",
 }
 
 func inventoryCheck(ld *sym.Loaded, kind string) (rows []string, uncovered []string) {
